@@ -18,6 +18,8 @@ CONSTANT DY = %d
 CONSTANT Base = %d
 CONSTANT LoDigits = %d
 CONSTANT Emit = TRUE
+CONSTANT Sample = %d
+CONSTANT Seed = %d
 INVARIANT StaticOK
 INVARIANT WorldOK
 CHECK_DEADLOCK FALSE
@@ -38,7 +40,7 @@ def run(chk, replay):
         frac = {2: 1.0, 3: 0.5, 4: 1.0}
     else:
         plans = [((2, 3), 2, 3, None), ((3, 2), 2, 3, None), ((4, 4), 2, 8, None), ((3, 3), 3, 5, None),
-                 ((3, 3), 4, 5, None), ((4, 4), 3, 8, "num=30000"), ((5, 5), 2, 13, "num=20000")]
+                 ((3, 3), 4, 5, None), ((4, 4), 3, 8, 30000), ((5, 5), 2, 13, 20000)]
         frac = {2: 1.0, 3: 1.0, 4: 0.25}
     run_worlds(chk, replay, "MarchSquares", "LineTrace", "c08-replay", ("msu", "msq"), plans, frac,
-               lambda d, b, l: CFG % (d[0], d[1], b, l), "ns")
+               lambda d, b, l, n, sd: CFG % (d[0], d[1], b, l, n, sd), "ns")
